@@ -46,4 +46,8 @@ TEXTS.update({
     "C19": {"text": "Fault enumeration: every truncation point and every single-bit flip of concrete .skf files goes through the real loader (with the lib.rs width dispatch) and must be rejected or decode to exactly the original content; random faults additionally go through every CLI subcommand. A Lean model of the Snappy frame decoder (chunk grammar, length checks, masked CRC-32C, raw Snappy block decompression) is cross-checked against the snap crate on the same faults; theorems about it (truncation, identifier and CRC-field flips) are listed in the evidence file as they are proved.", "note": STD + " Flips in compressed payloads and chunk type/length bytes are decided by enumeration per file, not by theorem.", "technique": "exhaustive fault enumeration on the real loader + Lean frame-decoder model cross-check"},
 })
 
+TEXTS.update({
+    "C12": {"text": "Model of the read branch of build (quality rules in build/roll_fwd/middle_base_qual, ntHash, blocked Bloom filter with its fingerprint/location arithmetic, count table with saturating add and the exact-count rule) and a counting specification over canonical full k-mers. The code is compared with both on generated paired FASTQ sets whose qualities and counts sit exactly on the thresholds. Theorems proved so far are listed in the evidence file; exactness is a theorem only under an explicit no-collision hypothesis, the <0.1% collision bound is measured.", "note": STD + " Hash collisions of the counting filter are outside the theorem (hypothesis Ideal).", "technique": "Lean 4 model + counting specification, differential correspondence (proofs under a no-collision hypothesis)"},
+})
+
 NOT_YET = {}
